@@ -52,26 +52,70 @@ pub fn make_case(seed: u64, _tier: Tier, idx: u64) -> Case {
             }
         }
     } else {
-        // bias towards grammars that are accepted and have many sentences
+        // bias towards grammars that are accepted, have many sentences, and in which the LALR(1)
+        // construction has real work to do: of several candidates keep the most "interesting" one
         let (source, cfg, force) = if idx - n_ex < gen::CORPUS.len() as u64 {
             let (cfg, _, _, force) = cfg_from_text(gen::CORPUS[(idx - n_ex) as usize].1);
             (Source::Corpus, cfg, force)
         } else {
-            match rng.below(10) {
-                0..=3 => {
-                    let (c, f) = gen::structured_cfg(&mut rng);
-                    (Source::Structured, c, f)
+            let mut best: Option<(i64, Source, Cfg, Vec<bool>)> = None;
+            for _ in 0..5 {
+                let (source, cfg, force) = match rng.below(12) {
+                    0..=2 => {
+                        let (c, f) = gen::structured_cfg(&mut rng);
+                        (Source::Structured, c, f)
+                    }
+                    3 => {
+                        let (cfg, _, _, force) = cfg_from_text(rng.pick(gen::CORPUS).1);
+                        let (c, f) = gen::embed(&mut rng, &cfg, &force);
+                        (Source::CorpusEmbedded, c, f)
+                    }
+                    4..=6 => {
+                        let (c, f) = gen::context_cfg(&mut rng);
+                        (Source::SharedContexts, c, f)
+                    }
+                    7 => {
+                        let (c, f) = gen::nested_cfg(&mut rng);
+                        (Source::Nested, c, f)
+                    }
+                    _ => gen::grammar_for_case(&mut rng, u64::MAX),
+                };
+                let score = match lr::build_reference(&cfg, 3000) {
+                    None => -100,
+                    Some(r) if r.lalr_conflict => -50,
+                    Some(r) => {
+                        let an = lr::analyse(&cfg);
+                        let mut sc = 3 * (r.lr1.states.len() as i64 - r.lalr.states.len() as i64).min(6);
+                        if r.lalr_tighter_than_slr() {
+                            sc += 4;
+                        }
+                        if r.class() == lr::Class::LalrNotSlr {
+                            sc += 8;
+                        }
+                        sc += r.ctx.first.nullable.iter().filter(|x| **x).count().min(3) as i64;
+                        if an.productive[cfg.start] {
+                            sc += 3;
+                        }
+                        sc + rng.below(9) as i64
+                    }
+                };
+                if best.as_ref().map(|b| score > b.0).unwrap_or(true) {
+                    best = Some((score, source, cfg, force));
                 }
-                4 => {
-                    let (cfg, _, _, force) = cfg_from_text(rng.pick(gen::CORPUS).1);
-                    let (c, f) = gen::embed(&mut rng, &cfg, &force);
-                    (Source::CorpusEmbedded, c, f)
-                }
-                _ => gen::grammar_for_case(&mut rng, u64::MAX),
             }
+            let (_, source, cfg, force) = best.unwrap();
+            (source, cfg, force)
         };
         let mut m = model_from_cfg(&cfg, &force);
         assign_random_shapes(&mut m, &mut rng, 0.6);
+        if rng.chance(0.5) {
+            shuffle_names(&mut m, &mut rng);
+        }
+        // long records: fieldsets with 8-14 positions (index suffixes with two digits, many
+        // fields of the same type), appended as extra nonterminals reachable from the start
+        if rng.chance(0.35) && !m.terms.is_empty() && m.terms.len() + m.nts.len() < 20 {
+            add_long_record(&mut m, &mut rng);
+        }
         m.start_pos = rng.below(m.nts.len() + 1);
         m.term_pos = rng.below(m.nts.len() + 1);
         (source, m)
@@ -98,6 +142,27 @@ pub fn make_case(seed: u64, _tier: Tier, idx: u64) -> Case {
         src,
         pay,
     }
+}
+
+/// Wrap the start symbol: `Rec -> f0 f1 ... f(k-1)` with k in 8..=14 fields, one of which is the old
+/// start symbol and the others terminals (often the same one), random used/skipped mask;
+/// the new start is `Rec` (struct) or a one-variant enum.
+fn add_long_record(m: &mut Model, rng: &mut Rng) {
+    let k = rng.range(8, 14);
+    let at = rng.below(k);
+    let same = rng.below(m.terms.len());
+    let style = if rng.chance(0.6) { Style::Tuple } else { Style::Named };
+    let fields: Vec<Field> = (0..k)
+        .map(|i| Field {
+            sym: if i == at { Sym::N(m.start) } else if rng.chance(0.7) { Sym::T(same) } else { Sym::T(rng.below(m.terms.len())) },
+            used: rng.chance(0.65),
+            name: format!("f{i}"),
+        })
+        .collect();
+    let is_enum = rng.chance(0.4);
+    let name = format!("Rec{}", m.nts.len());
+    m.nts.push(Nt { name: name.clone(), is_enum, prods: vec![Prod { name: "Only".into(), style, fields }], attrs: vec![] });
+    m.start = m.nts.len() - 1;
 }
 
 /// `{:?}` of the tree an emitted parser must return.
